@@ -17,6 +17,12 @@ from ..extract import (HEADER, ExtractError, Tr, ast_dump, body_of, const_int, c
 
 NAME = "LogStream"
 
+# Filled by generate(), read by vlib/gen/logstreamskel.py so that both files always talk about the same site:
+#   SITES  (translation unit, clang node id of an `if` condition) -> name of the guard / table row generated from it
+#   ROWS   (translation unit, clang node id of the `snprintf` call of a formatSI / formatIEC branch) -> name of its table row
+SITES = {}
+ROWS = {}
+
 LEVELS_EXPECTED = 6
 
 
@@ -138,12 +144,15 @@ class GuardTr(Tr):
         return Tr.expr(self, n)
 
 
-def numeric_guard(fn, what):
+def numeric_guard(fn, what, site=None):
     ifs = [i for i in find_ifs(fn) if mentions(if_cond(i), "avail")]
     if len(ifs) != 1:
         raise ExtractError("%s: expected exactly one `if` on avail(), found %d" % (what, len(ifs)))
     t = GuardTr({"buffer_.avail()": "avail"}, {"kMaxNumericSize": "kMaxNumericSize"})
-    return unparen(t.expr(if_cond(ifs[0]))), ifs[0]
+    text = unparen(t.expr(if_cond(ifs[0])))
+    if site is not None:
+        SITES[("LogStream.cc", if_cond(ifs[0]).get("id"))] = site      # only a condition that was translated
+    return text, ifs[0]
 
 
 # ----------------------------------------------------------------------------- pieces of a line
@@ -596,7 +605,10 @@ def si_table(docs):
             or ref_name([x for x in walk(n_decl[0]) if x.get("kind") == "DeclRefExpr"][0]) != "s":
         raise ExtractError("formatSI: n is not static_cast<double>(s)")
     rows = []
-    for cond, call in cascade(fn):
+    for idx, (cond, call) in enumerate(cascade(fn)):
+        if cond is not None:
+            SITES[("LogStream.cc", cond.get("id"))] = "siRow%d" % idx
+        ROWS[("LogStream.cc", call.get("id"))] = "siRow%d" % idx if cond is not None else "siElse"
         thr, on_double = None, False
         if cond is not None:
             c = strip(cond)
@@ -640,7 +652,10 @@ def iec_table(docs):
         if v.get("kind") == "VarDecl" and "double" in ctype(v) and v.get("name") != "n" and kids(v):
             env[v["name"]] = float_value(kids(v)[-1], env)
     rows = []
-    for cond, call in cascade(fn):
+    for idx, (cond, call) in enumerate(cascade(fn)):
+        if cond is not None:
+            SITES[("LogStream.cc", cond.get("id"))] = "iecRow%d" % idx
+        ROWS[("LogStream.cc", call.get("id"))] = "iecRow%d" % idx if cond is not None else "iecElse"
         thr = None
         if cond is not None:
             c = strip(cond)
@@ -685,6 +700,8 @@ deriving Repr, DecidableEq
 
 
 def generate():
+    SITES.clear()
+    ROWS.clear()
     ls = ast_dump("muduo/base/LogStream.cc", "muduo")
     lg = ast_dump("muduo/base/Logging.cc", "muduo")
     out = [HEADER % "muduo/base/LogStream.{h,cc}, Logging.{h,cc}, Thread.cc, Timestamp.h, TimeZone.cc, Date.cc",
@@ -726,6 +743,7 @@ def generate():
     for f in app:
         t = GuardTr({"avail()": "avail", "len": "len"})
         guards.add(unparen(t.expr(if_cond(locate_if(f, "len")))))
+        SITES[("LogStream.cc", if_cond(locate_if(f, "len")).get("id"))] = "appendFits"
     if len(guards) != 1:
         raise ExtractError("FixedBuffer::append: expected one guard, found %s" % sorted(guards))
     out.append(prop_def("appendFits", [("avail", "Nat"), ("len", "Nat")], guards.pop(),
@@ -733,19 +751,19 @@ def generate():
     fis = [f for f in functions(ls, "formatInteger")]
     if not fis:
         raise ExtractError("formatInteger has no definition")
-    g = set(numeric_guard(f, "formatInteger")[0] for f in fis)
+    g = set(numeric_guard(f, "formatInteger", "integerFits")[0] for f in fis)
     if len(g) != 1:
         raise ExtractError("formatInteger: instantiations disagree: %s" % sorted(g))
     out.append(prop_def("integerFits", [("avail", "Nat")], g.pop(), "`LogStream::formatInteger`: digits are generated in place iff"))
     ptr = the_function(ls, "operator<<", param_type="const void *")
-    out.append(prop_def("pointerFits", [("avail", "Nat")], numeric_guard(ptr, "operator<<(const void*)")[0],
+    out.append(prop_def("pointerFits", [("avail", "Nat")], numeric_guard(ptr, "operator<<(const void*)", "pointerFits")[0],
                         "`LogStream::operator<<(const void*)`"))
     pre = [n for n in walk(body_of(ptr)) if n.get("kind") == "BinaryOperator" and n.get("opcode") == "="
            and strip(kids(n)[1]).get("kind") == "CharacterLiteral"]
     out.append(bytes_def("pointerPrefix", bytes(int(strip(kids(n)[1])["value"]) for n in pre),
                          "the characters stored in front of the hex digits"))
     dbl = the_function(ls, "operator<<", param_type="double")
-    gd, ifd = numeric_guard(dbl, "operator<<(double)")
+    gd, ifd = numeric_guard(dbl, "operator<<(double)", "doubleFits")
     out.append(prop_def("doubleFits", [("avail", "Nat")], gd, "`LogStream::operator<<(double)`"))
     call = [n for n in walk(ifd) if n.get("kind") == "CallExpr" and callee_name(n) == "snprintf"]
     if len(call) != 1:
@@ -896,6 +914,7 @@ def generate():
     top = [s for s in stmts(body_of(ft)) if s.get("kind") == "IfStmt"]
     if len(top) != 2 or not mentions(if_cond(top[0]), "t_lastSecond") or callee_name(strip(if_cond(top[1]))) != "valid":
         raise ExtractError("formatTime: unexpected structure")
+    SITES[("Logging.cc", if_cond(top[0]).get("id"))] = "cacheMiss"
     # locals in front of the test that hold the zone generation: `int zoneGen = g_logTimeZoneGen;`
     miss_sym = {"seconds": "seconds", "t_lastSecond": "lastSecond", "t_lastZoneGen": "lastZoneGen"}
     gen_locals = set()
